@@ -213,7 +213,7 @@ func init() {
 					c.Fail("count-once", c.Pos(in), "bytes accumulated for a chunk that may already be acked (double release)")
 				}
 			})
-			c.Check(n == 4, "count-once", c.P.Pos(psa.Pos()), "all 4 per-stream accumulations are dominated by !chunk.acked", fmt.Sprintf("%d accumulation sites", n))
+			c.Check(n >= 2, "count-once", c.P.Pos(psa.Pos()), fmt.Sprintf("all %d per-stream accumulations (cumulative and gap-ack loops) are dominated by !chunk.acked", n), fmt.Sprintf("%d accumulation sites", n))
 			// every newly acknowledged chunk is counted: the only chunk-dependent condition guarding an
 			// accumulation is !acked (abandoned chunks are popped too and must be released)
 			si := c.field("chunkPayloadData", "streamIdentifier")
@@ -439,6 +439,7 @@ func init() {
 					case CmpCond(token.LEQ, IsLoadOf(ba), IsLoadOf(low))(f.Cond, f.Taken):
 					case CmpCond(token.GTR, IsParam(obr, 1), IsConstInt(0))(f.Cond, f.Taken):
 					case phiExplainedBy(f.Cond, DomFacts(in.Block())):
+					case nilTestOfPhiFrom(f.Cond, f.Taken, IsLoadOf(cb)):
 					default:
 						extra = append(extra, fmt.Sprintf("%s=%v", shortValue(c.P, f.Cond), f.Taken))
 					}
@@ -447,13 +448,26 @@ func init() {
 			})
 			pa := c.Fn("Association.processAcknowledgement")
 			okAll := false
-			for _, oc := range callsIn(pa, obr) {
+			// the map of per-stream totals: result 0 of processSelectiveAck, possibly handed to a private helper
+			isTotals := func(v ssa.Value) bool {
+				for d := 0; d < 3 && v != nil; d++ {
+					if ex, ok := v.(*ssa.Extract); ok && IsCallOf(c.Fn("Association.processSelectiveAck"))(ex.Tuple) && ex.Index == 0 {
+						return true
+					}
+					p, ok := v.(*ssa.Parameter)
+					if !ok {
+						return false
+					}
+					v = through(p)
+				}
+				return false
+			}
+			releaseCalls := callsInDeep(pa, obr, 1)
+			for _, oc := range releaseCalls {
 				if len(loopBlocks(oc.Block())) > 0 {
-					forEachInstr(pa, func(in ssa.Instruction) {
-						if rg, ok := in.(*ssa.Range); ok {
-							if ex, ok := rg.X.(*ssa.Extract); ok && IsCallOf(c.Fn("Association.processSelectiveAck"))(ex.Tuple) && ex.Index == 0 {
-								okAll = true
-							}
+					forEachInstr(oc.Parent(), func(in ssa.Instruction) {
+						if rg, ok := in.(*ssa.Range); ok && isTotals(rg.X) {
+							okAll = true
 						}
 					})
 				}
@@ -461,13 +475,13 @@ func init() {
 			c.Check(okAll, "every-stream-notified", c.P.Pos(pa.Pos()), "onBufferReleased is called for every entry of bytesAckedPerStream", "not every stream with acknowledged bytes is notified")
 			// each stream is released by its own share: s = a.streams[k], amount = v of the same map iteration
 			streamsF := c.field("Association", "streams")
-			for _, oc := range callsIn(pa, obr) {
+			for _, oc := range releaseCalls {
 				amt, isEx := callArg(oc, 1).(*ssa.Extract)
 				okShare := false
 				if isEx && amt.Index == 2 {
 					if nx, isNext := amt.Tuple.(*ssa.Next); isNext {
 						if rg, isRg := nx.Iter.(*ssa.Range); isRg {
-							if src, ok := rg.X.(*ssa.Extract); ok && IsCallOf(c.Fn("Association.processSelectiveAck"))(src.Tuple) && src.Index == 0 {
+							if isTotals(rg.X) {
 								// receiver: lookup in a.streams with the key of the same Next
 								recv := callArg(oc, 0)
 								if rex, ok := recv.(*ssa.Extract); ok {
@@ -509,4 +523,28 @@ func phiExplainedBy(cond ssa.Value, facts []condFact) bool {
 		}
 	}
 	return true
+}
+
+// nilTestOfPhiFrom: cond is "φ != nil" (taken) where every non-nil input of φ
+// matches pat — the value was picked up earlier and is tested later.
+func nilTestOfPhiFrom(cond ssa.Value, taken bool, pat VPat) bool {
+	b, ok := cond.(*ssa.BinOp)
+	if !ok || (b.Op != token.NEQ && b.Op != token.EQL) || (b.Op == token.NEQ) != taken {
+		return false
+	}
+	phi, ok := b.X.(*ssa.Phi)
+	if !ok || !isNilConst(b.Y) {
+		return false
+	}
+	n := 0
+	for _, e := range phi.Edges {
+		if isNilConst(e) {
+			continue
+		}
+		if !pat(e) {
+			return false
+		}
+		n++
+	}
+	return n > 0
 }
